@@ -71,8 +71,10 @@ def write_script(rng):
         r = rng.random()
         if r < 0.35:
             toks.append("full")
-        elif r < 0.75:
+        elif r < 0.55:
             toks.append(str(rng.choice([0, 1, 2, 3, 7, 100, 1000, 4096, rng.randrange(0, 70000)])))
+        elif r < 0.75:
+            toks.append(str(-rng.choice([1, 1, 1, 2, 3, 9, 10, 11, 100])))   # all but k bytes of the request
         elif r < 0.9:
             toks.append("EAGAIN")
         elif r < 0.96:
@@ -216,3 +218,145 @@ def run_case(ctx, prop, exe, lines, origin, argv=(), oracle=None, model_args=())
             model.append(["<<driver exit %d>> %s" % (rc, e2.strip()[:200])])
         mismatch = ctx.compare(case, impl, model)
     return case, impl, tr, fails, mismatch
+
+
+# ---------------------------------------------------------------------------------------------------
+# shared plug-in body of the properties decided on the `conn` engine (C01, C02, C03, C13)
+
+def read_case_file(path):
+    """returns (lines, argv, flavour) of a corpus / replay file"""
+    argv, flavour, lines = ["epoll"], None, []
+    with open(path) as f:
+        for l in f:
+            l = l.rstrip("\n")
+            if l.startswith("# flavour="):
+                for tok in l[2:].split():
+                    if tok.startswith("argv=") and tok[5:]:
+                        argv = [tok[5:]]
+                    if tok.startswith("flavour="):
+                        flavour = tok[8:]
+                continue
+            if not l.strip() or l.startswith("#"):
+                continue
+            if l.startswith("engine="):
+                for tok in l.split():
+                    if tok.startswith("argv="):
+                        argv = [tok[5:]]
+                    if tok.startswith("flavour="):
+                        flavour = tok[8:]
+                continue
+            lines.append(l)
+    return lines, argv, flavour
+
+
+class ConnProp:
+    """subclasses set: id, lean_module, oracles (list of functions Obs -> fails), profile (kwargs of random_case),
+    texts"""
+    gen_engines = ["Conn"]
+    drivers = ["conn"]
+    corpus_dirs = ["conn"]
+    profile = {}
+    quick_cases = 450
+    thorough_cases = 6000
+    partial_theorems = []
+
+    def signature(self, case, kind, desc):
+        return kind
+
+    def oracle(self, lines, tr):
+        from . import conn_oracle
+        o = conn_oracle.Obs(lines, tr.blocks)
+        fails = []
+        for f in self.oracles:
+            fails += f(o)
+        return fails
+
+    def nontrivial(self, tr):
+        return any(l.startswith("cb ") for _, l in tr.events)
+
+    def one(self, ctx, exe, lines, origin, be, flav):
+        margs = [be] + (["ndebug"] if "ndebug" in flav else [])
+        case, impl, tr, fails, mm = run_case(ctx, self, exe, lines, origin, argv=[be], model_args=margs,
+                                              oracle=lambda tr: self.oracle(lines, tr))
+        case.meta["flavour"] = flav
+        case.lines = ["# flavour=%s argv=%s" % (flav, be)] + case.lines
+        for l in lines:
+            ctx.count("op:" + l.split()[0] + ((":" + l.split()[2]) if l.startswith("act ") and len(l.split()) > 2 else ""))
+        for _, l in tr.events:
+            if l.startswith("cb ") or l.startswith("sys ") or l == "destroyed":
+                ctx.count("ev:" + " ".join(l.split()[:2]))
+        for env in tr.env:
+            for l in env:
+                w = l.split()
+                if w[1] in ("write", "readv") and not w[-1].lstrip("-").isdigit():
+                    ctx.count("fault:" + w[1] + ":" + w[-1])
+        ctx.record(case, impl, nontrivial=self.nontrivial(tr),
+                   sample={"flavour": flav, "poller": be, "ops": lines[:14], "events": [l for _, l in tr.events][:10]})
+        if fails:
+            kind, desc = fails[0]
+            small = self.shrink(ctx, exe, lines, be, flav, kind)
+            c2 = Case("conn", ["# flavour=%s argv=%s" % (flav, be)] + small, origin, meta={"argv": [be]})
+            ctx.oracle_failures.append((c2, kind, desc + " [%s/%s]" % (flav, be)))
+        elif mm:
+            case2 = Case("conn", ["# flavour=%s argv=%s" % (flav, be)] + lines, origin)
+            ctx.mismatches.append((case2, mm + " [%s/%s]" % (flav, be)))
+        return fails, mm
+
+    def shrink(self, ctx, exe, lines, be, flav, kind):
+        def still(ls):
+            c = Case("conn", ls, meta={"argv": [be]})
+            b, _ = ctx.run_impl(exe, c, timeout=60)
+            tr = Trace(ls, b)
+            f = self.oracle(ls, tr)
+            if tr.crash and not f:
+                f = [("crash", "")]
+            return any(k == kind for k, _ in f)
+        try:
+            head = 1 if lines and lines[0].startswith("config") else 0
+            return ddmin(lines, still, keep_prefix=head, budget=120) if still(lines) else lines
+        except Exception:
+            return lines
+
+    def configs(self, ctx):
+        if ctx.quick():
+            return [("dbg", "epoll"), ("dbg", "poll"), ("ndebug", "epoll")]
+        return [("dbg", "epoll"), ("dbg", "poll"), ("ndebug", "epoll"), ("ndebug", "poll"), ("asan", "epoll"), ("asan-ndebug", "poll")]
+
+    def correspondence(self, ctx, replay=None):
+        from . import build
+        if replay:
+            lines, argv, flavour = read_case_file(replay)
+            for flav, be in ([(flavour, argv[0])] if flavour else [("dbg", argv[0]), ("ndebug", argv[0])]):
+                exe = ctx.exe("conn_drv", flav)
+                case, impl, tr, fails, mm = run_case(ctx, self, exe, lines, "replay", argv=[be],
+                                                      model_args=[be] + (["ndebug"] if "ndebug" in flav else []),
+                                                      oracle=lambda tr: self.oracle(lines, tr))
+                for op, b in zip(tr.ops, impl):
+                    print("[%s/%s] %-34s %s" % (flav, be, op, " | ".join(l for l in b if not l.startswith("# peer"))))
+                self.one(ctx, exe, lines, "replay", be, flav)
+            return
+        cfgs = self.configs(ctx)
+        ctx.extra["flavours"] = sorted(set(f for f, _ in cfgs))
+        ctx.extra["pollers"] = sorted(set(b for _, b in cfgs))
+        exes = {f: ctx.exe("conn_drv", f) for f in sorted(set(f for f, _ in cfgs))}
+        # corpus first: witnesses of repaired defects and minimised past failures
+        paths = []
+        for d in self.corpus_dirs + [self.id]:
+            paths += sorted(glob.glob(os.path.join(CORPUS, d, "*.case")))
+        for p in paths:
+            lines, argv, flavour = read_case_file(p)
+            for flav, be in cfgs[:3]:
+                if flavour and flav != flavour and not (flavour == "dbg" and flav == "dbg"):
+                    pass
+                self.one(ctx, exes[flav], lines, "corpus:" + os.path.basename(p), be, flav)
+            ctx.count("corpus_cases")
+            if ctx.stop():
+                return
+        n = self.quick_cases if ctx.quick() and not ctx.search_mode else self.thorough_cases
+        per = max(1, n // len(cfgs))
+        for flav, be in cfgs:
+            for i in range(per):
+                lines = random_case(ctx.rng, **self.profile)
+                self.one(ctx, exes[flav], lines, "generated", be, flav)
+                if ctx.stop():
+                    return
